@@ -47,6 +47,30 @@ def readNat (r : Rd) (l : Nat) (width : Nat) : Res (Nat × Rd) :=
     let (v, r) ← readBytesAcc l r 0
     pure (v % 2 ^ width, r)
 
+/-- a non-negative integer of the NDN packet format is 1, 2, 4 or 8 bytes long -/
+def natWidthOk (l : Nat) : Bool := l == 1 || l == 2 || l == 4 || l == 8
+
+/-- natural and time fields (`GenNaturalNumberDecode`; repair F-13e: before it every length was
+    accepted): `if l != 1 && l != 2 && l != 4 && l != 8 { err = ErrFormat } else { the byte loop }` -/
+def readNatural (r : Rd) (l : Nat) : Res (Nat × Rd) :=
+  if natWidthOk l then readNat r l 64 else .err
+
+/-- the encoder only ever writes the four widths the decoder accepts -/
+theorem natWidthOk_natLen (x : Nat) : natWidthOk (natLen x) = true := by
+  unfold natLen natWidthOk; repeat' split
+  all_goals decide
+
+@[simp] theorem readNatural_natLen (r : Rd) (x : Nat) :
+    readNatural r (natLen x) = readNat r (natLen x) 64 := by
+  unfold readNatural; rw [if_pos (natWidthOk_natLen x)]
+
+theorem readNatural_ok {r r1 : Rd} {l x : Nat} (h : readNatural r l = .ok (x, r1)) :
+    readNat r l 64 = .ok (x, r1) := by
+  unfold readNatural at h
+  split at h
+  · exact h
+  · cases h
+
 def critical (typ : Nat) : Bool := typ ≤ 31 || typ % 2 == 1
 
 /-- the generated guard of name and binary fields (`if l > enc.TLNum(reader.Length()-reader.Pos())`,
@@ -173,7 +197,7 @@ structure SigInfoSt where
 
 def sigInfoBody (s : SigInfoSt) (typ l _sp : Nat) (r : Rd) : Res (SigInfoSt × Rd) :=
   if typ = 27 then do
-    let (v, r) ← readNat r l 64
+    let (v, r) ← readNatural r l
     pure ({ s with typ := some v }, r)
   else if typ = 28 then do
     let (sub, r) ← r.delegate l
@@ -184,10 +208,10 @@ def sigInfoBody (s : SigInfoSt) (typ l _sp : Nat) (r : Rd) : Res (SigInfoSt × R
     let (v, r) ← r.readFull l
     pure ({ s with si := { s.si with nonce := some v } }, r)
   else if typ = 40 then do
-    let (v, r) ← readNat r l 64
+    let (v, r) ← readNatural r l
     pure ({ s with si := { s.si with time := some v } }, r)
   else if typ = 42 then do
-    let (v, r) ← readNat r l 64
+    let (v, r) ← readNatural r l
     pure ({ s with si := { s.si with seq := some v } }, r)
   else if typ = 253 then do
     let (sub, r) ← r.delegate l
@@ -204,10 +228,10 @@ def parseSigInfo (r : Rd) : Res SigInfo := do
 
 def metaBody (m : MetaInfo) (typ l _sp : Nat) (r : Rd) : Res (MetaInfo × Rd) :=
   if typ = 24 then do
-    let (v, r) ← readNat r l 64
+    let (v, r) ← readNatural r l
     pure ({ m with ct := some v }, r)
   else if typ = 25 then do
-    let (v, r) ← readNat r l 64
+    let (v, r) ← readNatural r l
     pure ({ m with fresh := some v }, r)
   else if typ = 26 then do
     lenGuard r l
@@ -354,7 +378,7 @@ def interestHandle (k : Nat) (s : InterestSt) (l sp : Nat) (r : Rd) : Res (Inter
     let (x, r) ← readNat r l 32
     pure ({ s with v := { s.v with nonce := some x } }, r)
   else if k = 7 then do
-    let (x, r) ← readNat r l 64
+    let (x, r) ← readNatural r l
     pure ({ s with v := { s.v with lt := some x } }, r)
   else if k = 8 then
     -- err = reader.Skip(1); value.HopLimitV = &reader.Range(Pos()-1, Pos())[0][0]   (l is ignored)
